@@ -14,6 +14,7 @@ the real daemon is validated against.
 -/
 import ElvProofs.C26.Retry
 import ElvProofs.C26.Unique
+import ElvProofs.C26.Trace
 open C26 Go
 
 /-! ### (3) the checker is sound -/
@@ -196,3 +197,63 @@ theorem C26_not_linearizable_under_reset :
   intro hall
   obtain ⟨s, hr, _, _, hn⟩ := C26_retry_duplicates_add
   exact hn (hall s hr)
+
+/-! ### (4) trace refinement: recorded traces of the real daemon are runs of the model -/
+
+/-- SOUNDNESS OF THE TRACE ACCEPTOR (round 2).  The hook
+(hooks/C26-daemon-trace.patch) records, from the real `daemon.client`,
+`rpc.Client`, `rpc.Server` and the daemon's accept loop, one entry per hook
+point: request sent / refused, request read, service method returned (store
+commit) with its reply, response written, response read, call returned, …
+`acceptAll` (ElvModel/C26/Trace.lean) interprets every entry as ONE label of
+the LTS, runs the model's `step`, and compares what the real code reported with
+what the model computes (the request read = the request sent; the reply of the
+service method = the reply of the sequential specification at that point of the
+commit order; the response goes to the call named by the header; the caller
+gets that reply).  If it accepts, the recorded trace IS a run of the model
+without `clientReset`: the final acceptor state is reachable. -/
+theorem C26_acceptor_sound {σ Op Out : Type} [DecidableEq Op] [DecidableEq Out]
+    (spec : σ → Op → σ × Out) (s0 : σ) (es : List (Entry Op Out)) (a : AState σ Op Out)
+    (h : acceptAll spec s0 es = .ok a) : Reachable spec s0 Label.noReset a.s :=
+  acceptFrom_reachable es (AState.init s0) a 0 .init h
+
+/-- … hence every theorem about reachable states applies to an accepted trace;
+in particular the history of invocations and responses it contains (the
+`invoke` and `ret` entries, i.e. what the callers of `client.call` saw) is
+linearizable, with the recorded commit order as the witness. -/
+theorem C26_accepted_trace_linearizable {σ Op Out : Type} [DecidableEq Op] [DecidableEq Out]
+    (spec : σ → Op → σ × Out) (s0 : σ) (es : List (Entry Op Out)) (a : AState σ Op Out)
+    (h : acceptAll spec s0 es = .ok a) :
+    WellFormed a.s.hist ∧ Linearization spec s0 a.s.hist a.s.lin :=
+  C26_commit_order_is_linearization spec s0 a.s (C26_acceptor_sound spec s0 es a h)
+
+/-- a recorded trace of the shape the hook produces: two clients with their own
+connections, overlapping AddCmd calls that the daemon commits in the order
+opposite to their invocation -/
+def C26_demoTrace : List (Entry Op Out) :=
+  [.newClient 0, .invoke 0 0 (.cmd (.add [97])), .newClient 1, .invoke 1 1 (.cmd (.add [98])),
+   .dial 0 0, .send 0 0 0, .dial 1 1, .send 1 1 0,
+   .read 1 0 (.cmd (.add [98])), .read 0 0 (.cmd (.add [97])),
+   .commit 1 0 (.cmd (.seq (.ok 1))), .commit 0 0 (.cmd (.seq (.ok 2))),
+   .lock 0 0, .writeHdr 0 0, .writeBody 0 0, .lock 1 0, .writeHdr 1 0, .writeBody 1 0,
+   .recv 1 0, .ret 1 (.cmd (.seq (.ok 1))), .recv 0 0, .ret 0 (.cmd (.seq (.ok 2)))]
+
+/-- the same, but the daemon claims to have given number 1 to both -/
+def C26_badTrace : List (Entry Op Out) :=
+  [.newClient 0, .invoke 0 0 (.cmd (.add [97])), .newClient 1, .invoke 1 1 (.cmd (.add [98])),
+   .dial 0 0, .send 0 0 0, .dial 1 1, .send 1 1 0,
+   .read 1 0 (.cmd (.add [98])), .read 0 0 (.cmd (.add [97])),
+   .commit 1 0 (.cmd (.seq (.ok 1))), .commit 0 0 (.cmd (.seq (.ok 1)))]
+
+def C26_verdict (es : List (Entry Op Out)) : Option (Nat × String) :=
+  match acceptAll seqStep C24.Store.fresh es with
+  | .ok _ => none
+  | .error w => some w
+
+-- Non-vacuity: the acceptor accepts the first trace (so `C26_acceptor_sound`
+-- applies to it) and rejects the second at entry 11, the second commit.
+set_option maxRecDepth 100000 in
+example : C26_verdict C26_demoTrace = none ∧
+    C26_verdict C26_badTrace =
+      some (11, "the reply of the service method is not the reply of the sequential specification") := by
+  decide
